@@ -145,7 +145,7 @@ def judge(rep, scn, out, state, dur):
 def run_shard(rep):
     from vlab.dagcommon import scenario_rng, scn_key, scn_summary
     cfg = META['tiers'][rep.tier]
-    rep.require('runs_terminated', 300)
+    rep.require('runs_terminated', 150)
     rep.require('external_kills_delivered', 40)
     rep.require('task_deaths_observed', 100)
     jobs = [('real', j) for j in range(cfg['n_real'])] + [('sim', j) for j in range(cfg['n_sim'])]
